@@ -85,6 +85,8 @@ def thorough_extras(prop, report):
     import subprocess, re
     from . import selftest
     from concurrent.futures import ProcessPoolExecutor
+    if not os.path.isdir(runfacts.CACHE):
+        runfacts.warm_cache()      # otherwise every scratch copy below rebuilds the dependencies
     ms = selftest.load_mutants(prop)
     res = []
     if ms:
